@@ -151,3 +151,15 @@ Example distinct_names_lossless :
   let a := [97]%N in let b := [98]%N in
   parse_names dec_nat1 [mkD a None None [] []; mkD b None None [] []] [b; a] [] = Some [(b, 1%nat); (a, 0%nat)].
 Proof. vm_compute. reflexivity. Qed.
+
+(* F16 (C18/C03): the explicit id of a repeated task is used only while at least two functions
+   share the name: the same function with the same @task(id="g0") is called "foo[g0]" next to
+   a sibling and "foo" alone - its name, hence its signature and its recorded state, depend
+   on how many tasks a generator happens to create *)
+Definition s_g0 : list N := [103; 48]%N.
+Definition s_g1 : list N := [103; 49]%N.
+Theorem single_task_drops_id_refuted :
+  parse_names dec_nat1 [mkD s_foo None (Some s_g0) [] []; mkD s_foo None (Some s_g1) [] []] [s_foo] []
+    = Some [(s_foo ++ [lbr] ++ s_g0 ++ [rbr], 0%nat); (s_foo ++ [lbr] ++ s_g1 ++ [rbr], 1%nat)] /\
+  parse_names dec_nat1 [mkD s_foo None (Some s_g0) [] []] [s_foo] [] = Some [(s_foo, 0%nat)].
+Proof. vm_compute. split; reflexivity. Qed.
